@@ -63,6 +63,9 @@ def _shuffled(x: list[Any], seed: int) -> list[Any]:
 def gen_collect(rng: random.Random, i: int) -> dict[str, Any]:
     m = rng.random()
     ps = rng.randrange(10**6)
+    if m < 0.015:
+        # Liquid equality: a boolean equals only a boolean, so 1 and true are two values
+        return {"mode": "scalars", "x": g_list(rng, [1, True, 0, False, "a"], 0, 6), "pseed": ps}
     if m < 0.2:
         pool = [v for v in UNIQ_SAFE if not isinstance(v, list)]
         return {"mode": "scalars", "x": nest(rng, g_list(rng, pool, 0, 8), 0.2), "pseed": ps}
@@ -198,8 +201,9 @@ def case_collect(R: Runner, inp: dict[str, Any]) -> None:
             R.expect_ok("uniq", "total", u)
             if u.ok:
                 ok = any(skey(u.value) == skey(jn(_classes(E, lambda e: e))) for E in Es)
-                R.law("uniq", "first-of-each-value-in-order", ok, "nested" if len(Es) > 1 else "",
-                      {"input": jn(x), "got": u.value})
+                R.law("uniq", "first-of-each-value-in-order", ok,
+                      "bool-vs-number" if any(isinstance(e, bool) for e in Es[0]) and any(is_num(e) for e in Es[0])
+                      else ("nested" if len(Es) > 1 else ""), {"input": jn(x), "got": u.value})
             uu = R.T("uniq", "uniq | uniq", x=x)
             if u.ok and uu.ok:
                 R.law("uniq", "idempotent", skey(u.value) == skey(uu.value), "", {"once": u.value, "twice": uu.value})
@@ -479,3 +483,136 @@ def _split_ref(s: str, sep: str) -> list[str]:
             return out
         out.append(s[i:j])
         i = j + len(sep)
+
+
+# ---------------------------------------------------------------------------
+# arrays that come out of other filters: the engine's nil-like values mixed
+# ---------------------------------------------------------------------------
+#
+# map documents nil for a missing property (filter_reference.md map/compact; CTS "map,
+# missing property"), an explicit null property is nil too, and an undefined variable in an
+# array literal is nil as far as a template can tell (nil == undefined).  However such a nil
+# is represented inside the engine, uniq / compact / sort / concat must treat them as one
+# value: uniq leaves no two equal items, is idempotent, its size does not depend on the
+# order of the input, and commutes with sorting as far as the set of values goes; compact
+# removes all of them.
+
+PIPE_VALUES = ["news", "sport", "a", "", 2, 3, 10**20, "2"]
+LOOP = ("[{% for v in r %}{% if v == nil %}null{% else %}{{ v | json }}{% endif %}"
+        "{% unless forloop.last %},{% endunless %}{% endfor %}]")
+
+
+def gen_pipeline(rng: random.Random, i: int) -> dict[str, Any]:
+    vals = rng.sample(PIPE_VALUES, rng.randint(1, 3))
+    x = []
+    for j in range(rng.randint(0, 7)):
+        c = rng.random()
+        h: dict[str, Any] = {"title": "p%d" % j}
+        if c < 0.3:
+            h["k"] = None  # explicit nil
+        elif c < 0.6:
+            pass  # missing
+        else:
+            h["k"] = rng.choice(vals)
+        x.append(h)
+    y = [rng.choice([None, None] + vals) for _ in range(rng.randint(0, 3))]
+    lit = [rng.choice(("nosuch_a", "nosuch_b", "nv", "s0", "s1", "x[0].k", "x[1].k", "x[9].k")) for _ in range(rng.randint(1, 6))]
+    return {"mode": "pipeline", "x": x, "y": y, "lit": lit, "s": [rng.choice(vals), rng.choice(vals)],
+            "pseed": rng.randrange(10**6)}
+
+
+def _render_loop(R: Runner, owner: str, assign_expr: str, data: dict[str, Any], cls: str = "") -> Any:
+    """`{% assign r = <expr> %}` then the elements of r (nil-likes printed as null)."""
+    import json as _json
+
+    from .c19_lib import Res
+    from .c19_lib import skey as _skey
+
+    src = "{% assign r = " + assign_expr + " %}" + LOOP + "|{{ r | size }}"
+    before = _skey(data)
+    res = R.eng.render(src, data)
+    if res.ok:
+        try:
+            body, _, size = res.value.rpartition("|")
+            res = Res("ok", {"items": _json.loads(body), "size": int(size)})
+        except ValueError:
+            res = Res("foreign", None, "UndecodableOutput", res.value[:200])
+    if R.recording:
+        R.ctx.count("template_applications")
+        R.ctx.count("filter_output_pipelines")
+    return R._guard(owner, res, before, data, cls, "template:" + assign_expr)
+
+
+def _no_two_equal(items: list[Any]) -> bool:
+    return not any(leq(a, b) for i, a in enumerate(items) for b in items[i + 1:])
+
+
+def _ms(items: list[Any]) -> list[str]:
+    return sorted(repr(skey(e)) for e in items)
+
+
+@unit("pipeline", (), gen_pipeline)
+def case_pipeline(R: Runner, inp: dict[str, Any]) -> None:
+    x, y, lit, s = inp["x"], inp["y"], inp["lit"], inp["s"]
+    px = _shuffled(x, inp["pseed"])
+    mapped = [h.get("k") for h in x]
+    base = {"x": x, "y": y, "nv": None, "s0": s[0], "s1": s[1]}
+    sources: list[tuple[str, str, list[Any], str | None]] = [
+        ("map-stringkey", "x | map: 'k'", mapped, "px | map: 'k'"),
+        ("map-lambda", "x | map: i => i.k", mapped, "px | map: i => i.k"),
+        ("map-then-concat", "x | map: 'k' | concat: y", mapped + list(y), "px | map: 'k' | concat: y"),
+        ("concat-of-two-maps", "y | concat: x | map: i => i.k", [None] * len(y) + mapped, None),
+    ]
+    # array literal mixing undefined variables, explicit nil and values
+    env = {"nosuch_a": None, "nosuch_b": None, "nv": None, "s0": s[0], "s1": s[1],
+           "x[0].k": x[0].get("k") if len(x) > 0 else None, "x[1].k": x[1].get("k") if len(x) > 1 else None,
+           "x[9].k": None}
+    if len(lit) >= 2:
+        sources.append(("array-literal", ", ".join(lit), [env[n] for n in lit], ", ".join(reversed(lit))))
+    for name, expr, ref, perm_expr in sources:
+        data = dict(base, px=px)
+        plain = _render_loop(R, "map" if name.startswith("map") else "concat", expr, data, cls=name)
+        if plain.ok:
+            R.law("map" if "map" in name else "concat", "nil-for-missing-explicit-nil-and-undefined",
+                  skey(plain.value["items"]) == skey(jn(ref)), name, {"expr": expr, "want": jn(ref), "got": plain.value})
+        u = _render_loop(R, "uniq", expr + " | uniq", data, cls=name)
+        if not u.ok:
+            if u.kind != "foreign":
+                R.law("uniq", "total-on-filter-output", False, name, {"expr": expr, "got": u.brief()})
+            continue
+        items = u.value["items"]
+        R.law("uniq", "no-two-equal-items", _no_two_equal(items), name, {"expr": expr + " | uniq", "got": items})
+        R.law("uniq", "first-of-each-value-in-order", skey(items) == skey(jn(_classes(ref, lambda e: e))), name,
+              {"expr": expr + " | uniq", "want": jn(_classes(ref, lambda e: e)), "got": items})
+        R.law("uniq", "size-matches-items", u.value["size"] == len(items), name, {"got": u.value})
+        uu = _render_loop(R, "uniq", expr + " | uniq | uniq", data, cls=name)
+        if uu.ok:
+            R.law("uniq", "idempotent", skey(uu.value) == skey(u.value), name,
+                  {"expr": expr + " | uniq | uniq", "once": u.value, "twice": uu.value})
+        if perm_expr:
+            up = _render_loop(R, "uniq", perm_expr + " | uniq", data, cls=name)
+            if up.ok:
+                R.law("uniq", "size-independent-of-input-order", up.value["size"] == u.value["size"], name,
+                      {"expr": expr + " | uniq | size", "input": u.value, "permuted": up.value})
+        # uniq o sort == sort o uniq as sets (sort_natural is total on mixed values)
+        a = _render_loop(R, "uniq", expr + " | sort_natural | uniq", data, cls=name)
+        b = _render_loop(R, "uniq", expr + " | uniq | sort_natural", data, cls=name)
+        if a.ok and b.ok:
+            R.law("uniq", "commutes-with-sorting-as-sets", _ms(a.value["items"]) == _ms(b.value["items"]), name,
+                  {"expr": expr, "sort_then_uniq": a.value["items"], "uniq_then_sort": b.value["items"]})
+        # compact removes every nil-like value, before or after uniq
+        c = _render_loop(R, "compact", expr + " | compact", data, cls=name)
+        if c.ok:
+            R.law("compact", "removes-every-nil-like-value", skey(c.value["items"]) == skey(jn([e for e in ref if e is not None])),
+                  name, {"expr": expr + " | compact", "want": jn([e for e in ref if e is not None]), "got": c.value["items"]})
+        cu = _render_loop(R, "compact", expr + " | compact | uniq", data, cls=name)
+        uc = _render_loop(R, "compact", expr + " | uniq | compact", data, cls=name)
+        if cu.ok and uc.ok:
+            R.law("uniq", "commutes-with-compact", skey(cu.value) == skey(uc.value), name,
+                  {"expr": expr, "compact_then_uniq": cu.value, "uniq_then_compact": uc.value})
+        # selecting on the mapped values: nil-likes are never selected by truthiness
+        if plain.ok:
+            w = _render_loop(R, "where", expr + " | where: i => i", data, cls=name)
+            if w.ok:
+                R.law("where", "nil-like-values-are-falsy", skey(w.value["items"]) == skey(jn([e for e in ref if e is not None])),
+                      name, {"expr": expr + " | where: i => i", "got": w.value["items"]})
